@@ -229,7 +229,37 @@ def alias_sources(I, s, env, names, paths):
             note(st.target, st.iter)
         elif isinstance(st, ast.NamedExpr):
             note(st.target, st.value)
-    todo = [r for r in (_root(p) for p in paths if not isinstance(p, str)) if r in names]
+    # a mutation of the container itself (kvs.sort(), out.append(x), d[k] = v) through a name that is bound only to
+    # fresh containers (list(...), sorted(...), dict(...), [...], comprehension) cannot reach what the fresh container
+    # was built from; only stores *through its elements* (deeper paths) can
+    FRESH = {"list", "sorted", "dict", "set", "tuple", "deque", "OrderedDict"}
+
+    def fresh_value(v):
+        if isinstance(v, (ast.List, ast.Dict, ast.Set, ast.ListComp, ast.DictComp, ast.SetComp, ast.Tuple)):
+            return True
+        return isinstance(v, ast.Call) and isinstance(v.func, ast.Name) and v.func.id in FRESH
+
+    fresh_only = {}
+    for st in [n for b in list(s.body) + list(s.orelse) for n in ast.walk(b)]:
+        if isinstance(st, ast.Assign) and len(st.targets) == 1 and isinstance(st.targets[0], ast.Name):
+            nm = st.targets[0].id
+            fresh_only[nm] = fresh_only.get(nm, True) and fresh_value(st.value)
+        elif isinstance(st, (ast.For, ast.AnnAssign, ast.NamedExpr, ast.AugAssign)):
+            tn = set()
+            _target_names(getattr(st, "target", None) if not isinstance(st, ast.NamedExpr) else st.target, tn) if getattr(st, "target", None) is not None else None
+            for nm in tn:
+                if not (isinstance(st, ast.AnnAssign) and st.value is not None and fresh_value(st.value)):
+                    fresh_only[nm] = False
+
+    def propagates(p):
+        r = _root(p)
+        if isinstance(p, ast.Name) and fresh_only.get(r, False):
+            return False
+        if isinstance(p, ast.Subscript) and isinstance(p.value, ast.Name) and fresh_only.get(r, False):
+            return False
+        return True
+
+    todo = [r for r in (_root(p) for p in paths if not isinstance(p, str) and propagates(p)) if r in names]
     seen = set()
     out = []
     while todo:
